@@ -556,37 +556,42 @@ def gen_obligations(model, contract, events, results, fs):
             cond_ids = set(key)
             for ev in evs:
                 pc = strip_nd(ev.pc[nbase:])
-                conj = []
-                for f in pc:
-                    conj.extend(conjuncts(f))
-                conj.append(ev.value_z == t)
+                # (formula, tag) pairs; tags: 'assume'/'oblige' = facts given by callees/axioms, 'member' and
+                # untagged = conditions of the event
+                pairs = []
+                for f0 in pc:
+                    t0 = ev.tags.get(f0.get_id())
+                    for cj in conjuncts(f0):
+                        pairs.append((cj, ev.tags.get(cj.get_id()) or t0))
+                pairs.append((ev.value_z == t, "value"))
                 subs = []
                 for (x, itd) in ev.loopvars:
                     comp = find_component(ev.value_z, x, t)
                     if comp is not None:
                         subs.append((x, comp))
                 if subs:
-                    conj = [z3.substitute(f, *subs) for f in conj]
-                conj = eliminate_defined(conj, {str(t)})
+                    pairs = [(z3.substitute(f, *subs), tg) for f, tg in pairs]
+                # one-point rule for locals defined by an equation (keeps the tags of the other formulas)
+                changed, rounds = True, 0
+                while changed and rounds < 50:
+                    changed = False
+                    rounds += 1
+                    for idx, (f, tg) in enumerate(pairs):
+                        if not (z3.is_eq(f) and f.num_args() == 2):
+                            continue
+                        for a_, b_ in ((f.arg(0), f.arg(1)), (f.arg(1), f.arg(0))):
+                            if z3.is_const(a_) and a_.decl().kind() == z3.Z3_OP_UNINTERPRETED and "!" in str(a_) \
+                                    and str(a_) != str(t) and not _occurs(a_, b_):
+                                rest = pairs[:idx] + pairs[idx + 1:]
+                                pairs = [(z3.substitute(g_, (a_, b_)), tg_) for g_, tg_ in rest]
+                                changed = True
+                                break
+                        if changed:
+                            break
                 base_ids = {f.get_id() for f in base_pc} | cond_ids
-                conj = [f for f in conj if f.get_id() not in base_ids]
-                # facts assumed along the path (callee postconditions, axioms) that mention no
-                # event-local constant are hypotheses of the VC, not conditions of the event
-                # Semantics (DESIGN 2.5): loop elements are chosen angelically (every element is visited),
-                # results of callees are whatever the callee returned: only their assumed postconditions
-                # (facts) are known.  Event happens for t  iff  exists x. forall r. facts(x, r) -> conds(x, r).
-                tagged = []
-                for f0 in pc:
-                    for cj in conjuncts(f0):
-                        tagged.append((cj, ev.tags.get(cj.get_id()) or ev.tags.get(f0.get_id())))
-                tagmap = {}
-                for cj, tg in tagged:
-                    g2 = z3.substitute(cj, *subs) if subs else cj
-                    tagmap[g2.get_id()] = tg
-                facts, conds = [], []
-                for f in conj:
-                    tag = ev.tags.get(f.get_id()) or tagmap.get(f.get_id())
-                    (facts if tag in ("assume", "oblige") else conds).append(f)
+                pairs = [(f, tg) for f, tg in pairs if f.get_id() not in base_ids]
+                facts = [f for f, tg in pairs if tg in ("assume", "oblige")]
+                conds = [f for f, tg in pairs if tg not in ("assume", "oblige")]
                 sub_names = {str(x) for x, _ in subs}
                 xs = [x for (x, itd) in ev.loopvars if str(x) not in sub_names]
                 xnames = {str(x) for x in xs}
